@@ -172,6 +172,13 @@ impl CodeCache {
       let translated = self.exec_memory.get_memory_area_mut();
       let written = emitter.encode_op(next_op, length, &mut translated[write_cursor..]);
       write_cursor += written;
+      // A block that starts in ROM bank 0 is cached without a bank: it must
+      // not include code from the switchable bank behind 0x4000, which is
+      // different code once the guest selects another bank. End it here; the
+      // next block starts at the boundary and is cached with its bank.
+      if ip < 0x4000 && index >= 0x4000 {
+        break;
+      }
     }
 
     
